@@ -4,6 +4,7 @@ every base `2..36`, every value of the type, every buffer / input string.
 -/
 import TetlProofs.C10.Parse
 import TetlProofs.C10.Strto
+import TetlProofs.C10.Unchecked
 import TetlProofs.C10.SpecMathlib
 namespace Tetl.C10.Props
 open Tetl Tetl.C10
@@ -134,8 +135,10 @@ theorem toInteger_eq (t : IntTy) (h8 : 8 ≤ t.bits) (ws : Bool) (s : List Nat) 
     (b : Nat) (hb : 2 ≤ b ∧ b ≤ 36) :
     toInteger t ws s b = .ok (TIRes.ofSpec (Spec.parse t ws s b)) := by
   unfold toInteger
-  have hbase : (((b : Int) < 2) || decide ((b : Int) > 36)) = false := by
-    simp only [Bool.or_eq_false_iff, decide_eq_false_iff_not]; omega
+  have hbase : (((b : Int) != 0) && (decide ((b : Int) < 2) || decide ((b : Int) > 36))) = false := by
+    have : (decide ((b : Int) < 2) || decide ((b : Int) > 36)) = false := by
+      simp only [Bool.or_eq_false_iff, decide_eq_false_iff_not]; omega
+    rw [this, Bool.and_false]
   simp only [hbase, Bool.false_eq_true, if_false]
   rw [parse_eq]
   cases ws with
@@ -166,6 +169,73 @@ theorem overflow_exact (t : IntTy) (h8 : 8 ≤ t.bits) (ws : Bool) (s : List Nat
 
 example : (toInteger ⟨8, true⟩ false [49, 50, 56] 10).toOption.map (·.err) = some .overflow := by rfl
 example : (toInteger ⟨8, true⟩ false [49, 50, 55] 10).toOption.map (·.err) = some .none := by rfl
+
+/-- base 0 (what `strtol(.., 0)` and the other wrappers pass on): `to_integer` takes the base from the text
+    after the optional `-` — `0x`/`0X` + hex digit = 16 with the prefix consumed, another leading `0` = 8,
+    otherwise 10 — and then behaves as above: for every byte string it reads only inside the string, never
+    overflows an intermediate (in particular never divides by the base 0) and returns the outcome of the
+    reference pattern `Spec.parseAuto`. -/
+theorem toInteger_auto_eq (t : IntTy) (h8 : 8 ≤ t.bits) (ws : Bool) (s : List Nat) (hbytes : ∀ c ∈ s, c < 256) :
+    toInteger t ws s 0 = .ok (TIRes.ofSpec (Spec.parseAuto t ws s)) :=
+  toInteger_auto t h8 ws s hbytes
+
+/-- non-vacuity / samples: `" -0X7fg"` (hex, prefix consumed), `"0179"` (octal stops at `9`), `"0xg"` (no hex
+    digit after the prefix: the `0` alone), `"12a"` (decimal), `"0x80"` as `int8_t` (overflow in base 16) -/
+example : toInteger ⟨32, true⟩ true [32, 45, 48, 88, 55, 102, 103] 0 = .ok ⟨6, .none, -127⟩ := by rfl
+example : toInteger ⟨32, true⟩ true [48, 49, 55, 57] 0 = .ok ⟨3, .none, 15⟩ := by rfl
+example : toInteger ⟨32, true⟩ true [48, 120, 103] 0 = .ok ⟨1, .none, 0⟩ := by rfl
+example : toInteger ⟨32, false⟩ true [49, 50, 97] 0 = .ok ⟨2, .none, 12⟩ := by rfl
+example : toInteger ⟨8, true⟩ false [48, 120, 56, 48] 0 = .ok (.mkErr .overflow) := by rfl
+
+/-- overflow with base 0 is reported exactly at the type's limits as well -/
+theorem overflow_exact_auto (t : IntTy) (h8 : 8 ≤ t.bits) (ws : Bool) (s : List Nat) (hbytes : ∀ c ∈ s, c < 256) :
+    ∃ r, toInteger t ws s 0 = .ok r ∧ (r.err = .overflow ↔ ∃ n, Spec.parseAuto t ws s = .range n) := by
+  refine ⟨_, toInteger_auto_eq t h8 ws s hbytes, ?_⟩
+  cases Spec.parseAuto t ws s <;> simp [TIRes.ofSpec, TIRes.mkErr]
+
+/-- `check_overflow = false` (`nop_overflow_checker`, a public option of `strings::to_integer`; no wrapper uses
+    it): for every input whose digits denote a representable value, and for every input without digits, the
+    unchecked configuration reads only inside the string, overflows no intermediate and returns exactly what
+    the checked one returns.  The excluded class (`Spec.parse = .range _`) is the one the caller of the option
+    promises not to pass; there the result wraps or, for `int`/`long`, is undefined behaviour
+    (`toInteger_unchecked_outside`). -/
+theorem toInteger_unchecked_eq (t : IntTy) (h8 : 8 ≤ t.bits) (ws : Bool) (s : List Nat) (hbytes : ∀ c ∈ s, c < 256)
+    (b : Nat) (hb : 2 ≤ b ∧ b ≤ 36) (hnr : ∀ n, Spec.parse t ws s b ≠ .range n) :
+    toIntegerNC t ws s b = .ok (TIRes.ofSpec (Spec.parse t ws s b)) := by
+  apply toIntegerNC_of t ws s b _ (toInteger_eq t h8 ws s hbytes b hb)
+  cases h : Spec.parse t ws s b with
+  | ok v n => simp [TIRes.ofSpec]
+  | invalid => simp [TIRes.ofSpec, TIRes.mkErr]
+  | range n => exact absurd h (hnr n)
+
+/-- the same with base 0 -/
+theorem toInteger_unchecked_auto_eq (t : IntTy) (h8 : 8 ≤ t.bits) (ws : Bool) (s : List Nat)
+    (hbytes : ∀ c ∈ s, c < 256) (hnr : ∀ n, Spec.parseAuto t ws s ≠ .range n) :
+    toIntegerNC t ws s 0 = .ok (TIRes.ofSpec (Spec.parseAuto t ws s)) := by
+  apply toIntegerNC_of t ws s 0 _ (toInteger_auto_eq t h8 ws s hbytes)
+  cases h : Spec.parseAuto t ws s with
+  | ok v n => simp [TIRes.ofSpec]
+  | invalid => simp [TIRes.ofSpec, TIRes.mkErr]
+  | range n => exact absurd h (hnr n)
+
+/-- non-vacuity: `"-128"` as `int8_t` and `" 0x7fffffff"` with base 0 as `int` satisfy the hypothesis -/
+example : (∀ n, Spec.parse ⟨8, true⟩ false [45, 49, 50, 56] 10 ≠ .range n) ∧
+    toIntegerNC ⟨8, true⟩ false [45, 49, 50, 56] 10 = .ok ⟨4, .none, -128⟩ := by
+  refine ⟨?_, by rfl⟩
+  have e : Spec.parse ⟨8, true⟩ false [45, 49, 50, 56] 10 = .ok (-128) 4 := by rfl
+  intro n h; rw [e] at h; cases h
+example : toIntegerNC ⟨32, true⟩ true [32, 48, 120, 55, 102, 102, 102, 102, 102, 102, 102] 0
+    = .ok ⟨11, .none, 2147483647⟩ := by rfl
+
+/-- outside the class nothing is promised: `"256"` as `uint8_t` wraps to 0 (the checked configuration reports
+    `overflow`), `"2147483648"` as `int` is a signed overflow (undefined behaviour: the model's `.error`) -/
+theorem toInteger_unchecked_outside :
+    Spec.parse ⟨8, false⟩ false [50, 53, 54] 10 = .range 3 ∧
+    toIntegerNC ⟨8, false⟩ false [50, 53, 54] 10 = .ok ⟨3, .none, 0⟩ ∧
+    toInteger ⟨8, false⟩ false [50, 53, 54] 10 = .ok (.mkErr .overflow) ∧
+    Spec.parse ⟨32, true⟩ false [50, 49, 52, 55, 52, 56, 51, 54, 52, 57] 10 = .range 10 ∧
+    toIntegerNC ⟨32, true⟩ false [50, 49, 52, 55, 52, 56, 51, 54, 52, 57] 10 = .error (.pre "signed integer overflow") := by
+  refine ⟨by rfl, by rfl, by rfl, by rfl, by rfl⟩
 
 /-- `from_chars` for every input whose digits denote a representable value or that has no digits:
     value, `ptr` and `ec` are those of [charconv.from.chars].  The excluded class
@@ -227,8 +297,8 @@ example : fromChars ⟨32, true⟩ [45, 102, 102] 16 = .ok (.ok (-255) 3) := by 
 `strtol`, `strtoll`, `strtoul`, `strtoull`, `stoi` … `stoull` are `to_integer` with white-space
 skipping on the C string / view; the reference is the C grammar `Spec.strto` (sign `+`/`-`, `0x`,
 base 0, saturation + `ERANGE`, negation in the unsigned type).  The four excluded input classes are
-the recorded findings F-C10-cstdlib-plus-sign, -base-prefix, -range and F-C10-strtoul-minus
-(base 0 is outside `2 ≤ base`: F-C10-cstdlib-base-zero). -/
+the recorded findings F-C10-cstdlib-plus-sign, -base-prefix (base 16 only), -range and
+F-C10-strtoul-minus.  Base 0 is covered by `strto_auto_eq_partial` (F-C10-cstdlib-base-zero: fixed). -/
 
 /-- value and end pointer / `*pos` equal the C library's for every text outside the four classes -/
 theorem strto_eq_partial (t : IntTy) (h8 : 8 ≤ t.bits) (s : List Nat) (hbytes : ∀ c ∈ s, c < 256)
@@ -246,6 +316,49 @@ example : Spec.plusSign [32, 32, 45, 55, 102, 122] = false ∧ Spec.basePrefix [
     Spec.unsignedMinus ⟨64, true⟩ [32, 32, 45, 55, 102, 122] = false ∧
     Spec.strto ⟨64, true⟩ [32, 32, 45, 55, 102, 122] 16 = ⟨-127, 5, false⟩ := by
   refine ⟨by rfl, by rfl, by rfl, by rfl⟩
+
+/-- base 0: value and end pointer / `*pos` equal the C library's auto-detecting conversion for every text
+    outside the three classes that remain (a `0x` prefix is handled with base 0, so `Spec.basePrefix`,
+    which needs base 16, is not among them) -/
+theorem strto_auto_eq_partial (t : IntTy) (h8 : 8 ≤ t.bits) (s : List Nat) (hbytes : ∀ c ∈ s, c < 256)
+    (h1 : Spec.plusSign s = false) (h3 : Spec.unsignedMinus t s = false)
+    (h4 : (Spec.strto t s 0).erange = false) :
+    strto t s 0 = .ok ((Spec.strto t s 0).value, (Spec.strto t s 0).endPos) := by
+  unfold strto
+  rw [toInteger_auto_eq t h8 true s hbytes]
+  obtain ⟨hv, he⟩ := strto_spec_eq_auto t s h1 h3 h4
+  simp only [ok_bind, hv, he]
+
+/-- non-vacuity: `"\t-0x1Fg"`, `"0755 "` and `"0x"` satisfy the hypotheses; hex, octal, and the lone `0` -/
+example : Spec.plusSign [9, 45, 48, 120, 49, 70, 103] = false ∧ Spec.unsignedMinus ⟨64, true⟩ [9, 45, 48, 120, 49, 70, 103] = false ∧
+    Spec.strto ⟨64, true⟩ [9, 45, 48, 120, 49, 70, 103] 0 = ⟨-31, 6, false⟩ ∧
+    strto ⟨64, true⟩ [9, 45, 48, 120, 49, 70, 103] 0 = .ok (-31, 6) := by
+  refine ⟨by rfl, by rfl, by rfl, by rfl⟩
+example : Spec.strto ⟨64, false⟩ [48, 55, 53, 53, 32] 0 = ⟨493, 4, false⟩ ∧
+    strto ⟨64, false⟩ [48, 55, 53, 53, 32] 0 = .ok (493, 4) := by
+  refine ⟨by rfl, by rfl⟩
+example : Spec.strto ⟨64, true⟩ [48, 120] 0 = ⟨0, 1, false⟩ ∧ strto ⟨64, true⟩ [48, 120] 0 = .ok (0, 1) := by
+  refine ⟨by rfl, by rfl⟩
+
+/-- `strtol`, `strtoll`, `strtoul`, `strtoull` on a `char const*`, base 0 or 2..36: nothing at or after the first
+    NUL is read (the conversion runs on `cstrOf s`), and outside the classes value and end pointer are the
+    C library's -/
+theorem cstrto_eq_partial (t : IntTy) (h8 : 8 ≤ t.bits) (s : List Nat) (hbytes : ∀ c ∈ s, c < 256)
+    (b : Nat) (hb : b = 0 ∨ (2 ≤ b ∧ b ≤ 36))
+    (h1 : Spec.plusSign (cstrOf s) = false) (h2 : Spec.basePrefix (cstrOf s) b = false)
+    (h3 : Spec.unsignedMinus t (cstrOf s) = false) (h4 : (Spec.strto t (cstrOf s) b).erange = false) :
+    cstrto t s b = .ok ((Spec.strto t (cstrOf s) b).value, (Spec.strto t (cstrOf s) b).endPos) := by
+  unfold cstrto
+  have hb' : ∀ c ∈ cstrOf s, c < 256 := fun c hc => hbytes c ((List.takeWhile_sublist _).subset hc)
+  rcases hb with hb | hb
+  · subst hb
+    exact strto_auto_eq_partial t h8 (cstrOf s) hb' h1 h3 h4
+  · exact strto_eq_partial t h8 (cstrOf s) hb' b hb h1 h2 h3 h4
+
+/-- non-vacuity: `"0x10\0 9"` with base 0 — the text after the NUL is not part of the number -/
+example : cstrto ⟨64, true⟩ [48, 120, 49, 48, 0, 32, 57] 0 = .ok (16, 4) ∧
+    Spec.strto ⟨64, true⟩ (cstrOf [48, 120, 49, 48, 0, 32, 57]) 0 = ⟨16, 4, false⟩ := by
+  refine ⟨by rfl, by rfl⟩
 
 /-- `atoi`/`atol`/`atoll`: the value of `strtol(str, nullptr, 10)` outside the same classes -/
 theorem ato_eq_partial (t : IntTy) (h8 : 8 ≤ t.bits) (s : List Nat) (hbytes : ∀ c ∈ s, c < 256)
